@@ -105,8 +105,13 @@ def run(spec):
       # 'reuse' flavour: the same diagnostics object is given the new series through its setters
       if not reuse:
         return lib_impact(xv, yv, par_kw)[1]
-      d.y = yv
-      d.x = xv
+      # ... from work buffers which the caller overwrites straight after handing them over (the object must keep
+      # the values it was given)
+      bx, by = np.array(xv, dtype=float), np.array(yv, dtype=float)
+      d.y = by
+      d.x = bx
+      by *= 4.0
+      bx[:] = bx[::-1] + 1.0
       return d.required_impact
     I2 = impact_of(x * s, y * s)
     if not util.close(I2, I * s, 1e-12):
